@@ -33,6 +33,15 @@ class Activity:
     __slots__ = ('node', 'call', 'in_idx', 'md', 'root', 'done', 'ok', 'start_seq', 'end_seq', 'kind', 'ran')
 
 
+class _Request:
+    """an awaitable that is neither a Future nor a coroutine"""
+    def __init__(self, fut):
+        self._fut = fut
+
+    def __await__(self):
+        return self._fut.__await__()
+
+
 class Ctx:
     def __init__(self, scenario, rec, loop, mode):
         self.sc = scenario
@@ -163,7 +172,10 @@ class Ctx:
                 lp.call_later(lat, fire)
             return fut
 
-        impl = {'native': native, 'tornado': tornado_co, 'future': future_style}[style]
+        def awaitable_style(a, x):
+            return _Request(future_style(a, x))
+
+        impl = {'native': native, 'tornado': tornado_co, 'future': future_style, 'awaitable': awaitable_style}[style]
 
         def f(x):
             a = ctx._begin(nid, x, kind)
